@@ -17,6 +17,9 @@ import (
 	cylde "github.com/bandprotocol/chain/v3/cylinder/workers/de"
 	"github.com/bandprotocol/chain/v3/pkg/tss"
 	bandtsstypes "github.com/bandprotocol/chain/v3/x/bandtss/types"
+	feedstypes "github.com/bandprotocol/chain/v3/x/feeds/types"
+	oracletypes "github.com/bandprotocol/chain/v3/x/oracle/types"
+	tunneltypes "github.com/bandprotocol/chain/v3/x/tunnel/types"
 	tsstypes "github.com/bandprotocol/chain/v3/x/tss/types"
 
 	"verifsim/world"
@@ -182,6 +185,11 @@ type reqSigMeta struct {
 	Kind    string
 	Text    []byte
 	Sender  *world.Account
+	// content description for C11
+	Content   string // text, feeds, oracle, internal_tunnel, internal_transition
+	SignalIDs []string
+	Encoder   int32
+	RequestID uint64
 }
 type activateMeta struct {
 	Member  *TSSMember
@@ -486,6 +494,10 @@ type SigRequester struct {
 	MaxOpen  int
 	Senders  []*world.Account
 	LimitW   []int // fee limit choice weights: ample, exact, exact-1, other denom only
+	RichContent bool
+	Signals     []string
+	lastContent tsstypes.Content
+	lastMeta    *reqSigMeta
 	RollbackP int
 	n        int
 }
@@ -538,10 +550,49 @@ func (r *SigRequester) Act(e *Env) {
 			limit = sdk.NewCoins(sdk.NewInt64Coin("uatom", 1))
 		}
 	}
-	msg, err := bandtsstypes.NewMsgRequestSignature(tsstypes.NewTextSignatureOrder(text), limit, sender.Addr.String())
+	var content tsstypes.Content = tsstypes.NewTextSignatureOrder(text)
+	meta := &reqSigMeta{Kind: kind, Text: text, Sender: sender, Content: "text"}
+	if r.RichContent {
+		switch e.Ch.Weighted("sigreq.content", []int{40, 25, 15, 10, 10}) {
+		case 1:
+			n := 1 + e.Ch.Intn("sigreq.feeds.n", 4)
+			perm := e.Ch.Perm("sigreq.feeds.perm", len(r.Signals))
+			var ids []string
+			for i := 0; i < n && i < len(perm); i++ {
+				ids = append(ids, r.Signals[perm[i]])
+			}
+			if e.Ch.Bool("sigreq.feeds.unknown", 150) {
+				ids = append(ids, "NOT:A-FEED")
+			}
+			enc := feedstypes.Encoder(1 + e.Ch.Intn("sigreq.feeds.enc", 2))
+			content = feedstypes.NewFeedSignatureOrder(ids, enc)
+			meta.Content, meta.SignalIDs, meta.Encoder = "feeds", ids, int32(enc)
+		case 2:
+			rid := uint64(1 + e.Ch.Intn("sigreq.oracle.rid", 12))
+			enc := oracletypes.Encoder(1 + e.Ch.Intn("sigreq.oracle.enc", 3))
+			content = oracletypes.NewOracleResultSignatureOrder(oracletypes.RequestID(rid), enc)
+			meta.Content, meta.RequestID, meta.Encoder = "oracle", rid, int32(enc)
+		case 3:
+			content = tunneltypes.NewTunnelSignatureOrder(uint64(1+e.Ch.Intn("sigreq.tunnel.seq", 5)), []feedstypes.Price{{Status: feedstypes.PRICE_STATUS_AVAILABLE, SignalID: "CS:BTC-USD", Price: 777, Timestamp: 1}}, 1, feedstypes.ENCODER_FIXED_POINT_ABI)
+			meta.Content = "internal_tunnel"
+			e.St.Fault("request_internal_content")
+		case 4:
+			content = bandtsstypes.NewGroupTransitionSignatureOrder(sender.Priv.PubKey().Bytes(), e.W.Time)
+			meta.Content = "internal_transition"
+			e.St.Fault("request_internal_content")
+		}
+	}
+	if r.lastContent != nil && e.Ch.Bool("sigreq.repeat", 120) {
+		// the very same content again (same or other requester): signed messages must still differ
+		content, meta.Content, meta.Text, meta.SignalIDs, meta.Encoder, meta.RequestID = r.lastContent, r.lastMeta.Content, r.lastMeta.Text, r.lastMeta.SignalIDs, r.lastMeta.Encoder, r.lastMeta.RequestID
+		e.St.Fault("request_identical_content")
+	}
+	r.lastContent, r.lastMeta = content, meta
+	msg, err := bandtsstypes.NewMsgRequestSignature(content, limit, sender.Addr.String())
 	if err != nil {
 		panic(err)
 	}
+	meta.Msg = msg
 	if e.Ch.Bool("sigreq.memo", 300) {
 		msg.Memo = fmt.Sprintf("memo%d", e.Ch.Intn("sigreq.memo.n", 50))
 	}
@@ -550,10 +601,11 @@ func (r *SigRequester) Act(e *Env) {
 		// message did (fee transfer, nonce dequeue, signing creation) has to be rolled back
 		bad := banktypes.NewMsgSend(sender.Addr, r.Senders[0].Addr, sdk.NewCoins(sdk.NewInt64Coin("uband", 9_000_000_000_000_000)))
 		e.St.Fault("tx_second_msg_fails")
-		e.Submit(sender, "request_signature", &reqSigMeta{Msg: msg, Kind: "rollback", Text: text, Sender: sender}, msg, bad)
+		meta.Kind = "rollback"
+		e.Submit(sender, "request_signature", meta, msg, bad)
 		return
 	}
-	e.Submit(sender, "request_signature", &reqSigMeta{Msg: msg, Kind: kind, Text: text, Sender: sender}, msg)
+	e.Submit(sender, "request_signature", meta, msg)
 }
 
 // ---------------------------------------------------------------------------------------------
